@@ -59,20 +59,6 @@ K = {
                   "Outside: tasks at program level, FFI.",
         "assumptions": [],
     },
-    "C05": {
-        "prefix": r"c05_",
-        "thorough_only": r"c05_tv_(load_div_second|load_lt_second|load_load_mod|pushint_ge_imm|pushint_eq_imm|false_not|true_jumpiffalse|pushnil2_pop|load_arraylen_store|load_load_getindex)",
-        "jobs": 10, "quick_timeout": 600,
-        "functions": ["optimize_bytecode::optimize (all peephole rules exercised by the windows)", "assembly::Reg::encode",
-                      "vm::VmGreenThread::step on the original and the rewritten window"],
-        "bounds": "windows of 2-4 assembly lines (one per rewrite rule family and instruction kind listed in the evidence), symbolic integer "
-                  "constants and frame contents; both windows executed by the real step() from the same symbolic 5-slot frame. Integer folds: "
-                  "all 2^128 constant pairs for + - *, reduced ranges for / and ^. Outside: float immediates/folds (string parsing; covered by "
-                  "./check C02 literal-vs-variable templates), the composition of rewrites across a whole function (sampled by C02's with/without "
-                  "optimizer comparison), label handling.",
-        "assumptions": ["the harness lowering of assembly lines to VM instructions (vm_peephole.rs::lower) mirrors assembly::instr_to_vminstr "
-                        "(which needs hash maps and is out of CBMC's reach)"],
-    },
     "C06": {
         "prefix": r"c06_",
         "jobs": 8, "quick_timeout": 900, "thorough_timeout": 1800,
